@@ -644,6 +644,11 @@ class An:
             if contradicts(s.facts,f): return False      # infeasible under the path's ordering facts
             s.facts.append(f)
             return True
+        if isinstance(v,tuple) and v and v[0]=='discr' and isinstance(v[1],tuple) and v[1] and v[1][0]=='enumc':
+            # a switch on the tag of a known field-less variant: only the matching arm is feasible
+            tag=str(v[1][2])
+            if otherwise: return tag not in set(allvals)
+            return val==tag
         if isinstance(v,IntV) and isinstance(v.val,dict) and self.single_sym(v.val) and not otherwise:
             # `match rhs { 0 => .., 1 => .., x => .. }` on a primitive operand
             s.subst[self.single_sym(v.val)]=int(val)
@@ -745,6 +750,8 @@ class An:
                 rec=Rec(sc if isterm(sc) else ('unk','agg'), iv if isinstance(iv,IntV) else None, None, None,'agg@%d'%st['line'])
                 if sg is not None and isinstance(sg,tuple) and sg and sg[0]=='signv': rec.sign=sg[1]
                 v=rec
+            elif kind['a']=='adt' and not ops and 'vidx' in kind and not re.match(r'^(std|core)::', str(kind.get('adt',''))):
+                v=('enumc',str(kind.get('adt','')),int(kind['vidx']))       # a field-less variant of a crate-local enum: a known tag
             elif kind['a']=='adt' and not str(kind.get('adt','')).startswith('std::') and kind.get('fields') and len(kind['fields'])==len(ops) \
                     and str(kind.get('adt','')).split('::')[-1] not in ('WithScale','Context','NonDigitRoundingData','InsigData'):
                 v=('tuple',ops)          # a plain crate-local struct carrying values: fields are read back by position
